@@ -268,8 +268,9 @@ func init() {
 
 	register(&Rule{ID: "O2.cache", Min: 6, Text: "server rebuild (BuildInternalDocForServerSeq): the snapshot-cache entry is used only when it is not newer than the requested serverSeq — whenever requested < cached.Checkpoint().ServerSeq is possible, or there is no entry, the path goes through Database.FindClosestSnapshotInfo; the replayed range starts at base.Checkpoint().ServerSeq+1 and ends at the requested serverSeq; what Cache.Snapshot.Get returns is only DeepCopy'd; what is Added to the cache is not returned (a DeepCopy is)",
 		Run: func(x *Ctx) {
-			fn := x.fn("server/packs.BuildInternalDocForServerSeq")
+			fn := x.rebuildHost()
 			if fn == nil {
+				x.C.Unresolved(x.id(), "the function of server/packs that reads the snapshot cache (Cache.Snapshot.Get)")
 				return
 			}
 			k := "func=" + prog.FnName(fn)
@@ -349,7 +350,8 @@ func init() {
 					added := c.Common().Args[len(c.Common().Args)-1]
 					ret := false
 					for _, r := range prog.Returns(fn) {
-						if prog.Reaches(prog.ReturnValue(r, 0), func(v ssa.Value) bool { return v == prog.Strip(added) }) {
+						// only a return the Add can come before: a path that returns its own object without having cached it shares nothing
+						if prog.MayPrecede(c, r) && prog.Reaches(prog.ReturnValue(r, 0), func(v ssa.Value) bool { return v == prog.Strip(added) }) {
 							ret = true
 						}
 					}
@@ -660,4 +662,49 @@ func init() {
 				x.C.Vacuous(x.id()+" sites", n, 4)
 			}
 		}})
+}
+
+// rebuildHost: the function of package packs that rebuilds a document from the snapshot cache and the
+// log — found by role (it calls Get on the backend's snapshot cache), whatever it is called and
+// however many exported entry points wrap it.
+func (x *Ctx) rebuildHost() *ssa.Function {
+	for _, fn := range x.P.FuncsIn("server/packs") {
+		for _, c := range prog.CallsIn(fn) {
+			o := prog.CallObj(c)
+			if o == nil || o.Name() != "Get" {
+				continue
+			}
+			if r := recvOf(c); r != nil {
+				if f := prog.LoadedField(r); f != nil && f.Name() == "Snapshot" {
+					return fn
+				}
+			}
+		}
+	}
+	return nil
+}
+
+// rebuildEntries: the host itself and the functions of its package that only wrap it.
+func (x *Ctx) rebuildEntries() []*types.Func {
+	host := x.rebuildHost()
+	if host == nil {
+		return nil
+	}
+	var out []*types.Func
+	if o, _ := host.Object().(*types.Func); o != nil {
+		out = append(out, o)
+		for _, c := range x.directCallers(o) {
+			w := c.Parent()
+			if prog.PkgOf(w) != prog.PkgOf(host) || w.Parent() != nil {
+				continue
+			}
+			// a thin wrapper: one block, returns the call
+			if len(w.Blocks) == 1 {
+				if wo, _ := w.Object().(*types.Func); wo != nil {
+					out = append(out, wo)
+				}
+			}
+		}
+	}
+	return out
 }
